@@ -271,6 +271,33 @@ func (e *twEngine) emitSpotSynthetic() {
 	obs := "panic"
 	if ok {
 		obs = fmt.Sprintf("%s %s %s", s0.BigInt(), s1.BigInt(), nsOf(le))
+		// independent oracle ("an interval touching a spot-price error is flagged"): the error time is the
+		// current block time exactly when a direction's query failed or its price had to be clamped to the
+		// maximum; otherwise the previous error time is carried over unchanged.  Stored prices never exceed the maximum.
+		var causes []string
+		if m.e0 != nil {
+			causes = append(causes, "err0")
+		}
+		if m.e1 != nil {
+			causes = append(causes, "err1")
+		}
+		if (m.p0 != osmomath.BigDec{}) && m.p0.BigInt().Cmp(maxBD) > 0 {
+			causes = append(causes, "clamp0")
+		}
+		if (m.p1 != osmomath.BigDec{}) && m.p1.BigInt().Cmp(maxBD) > 0 {
+			causes = append(causes, "clamp1")
+		}
+		line := fmt.Sprintf("twap spot %s %s %s %s => %s", ppStr(m.p0, m.e0), ppStr(m.p1, m.e1), nsOf(prev), nsOf(now), obs)
+		if len(causes) > 0 && !le.Equal(now) {
+			e.o.Fail("spot:error-not-flagged:"+strings.Join(causes, "+"), line)
+		}
+		if len(causes) == 0 && !le.Equal(prev) {
+			e.o.Fail("spot:spurious-error-flag", line)
+		}
+		maxDec := new(big.Int).Quo(maxBD, e18)
+		if s0.BigInt().Cmp(maxDec) > 0 || s1.BigInt().Cmp(maxDec) > 0 {
+			e.o.Fail("spot:stored-above-max", line)
+		}
 	}
 	e.o.Emit(fmt.Sprintf("twap spot %s %s %s %s", ppStr(m.p0, m.e0), ppStr(m.p1, m.e1), nsOf(prev), nsOf(now)), obs, true)
 	e.o.Count("spot.synthetic")
